@@ -953,3 +953,24 @@ def slot_bounds(run: Run, rule: str, prefixes: Sequence[str], floor: int = 1) ->
                     run.finding(rule, f"{fd.name}:slot-id-compared-with:{tb[:60]}", f"{fd.qual}: a slot id from find_slot is compared with `{tb}`, which is not a slot "
                                 "capacity: a live key in a slot above a hole is treated as absent", loc=fa.loc(n))
     run.sites(loops_n + cmp_n, floor, "slot-id bounds")
+
+
+def share(run: Run, rule: str, module, src_rules: Sequence[str], prefix: bool = False) -> None:
+    """Re-evaluate rule instances that belong to another property under `rule` of this property (the same function is looked at by
+    several properties; each attributes a break to itself).  Runs the other module's check in a quiet sub-run and copies the findings
+    of `src_rules` (exact ids, or id prefixes with prefix=True).  Inside a sub-run nothing is shared again (no recursion, no
+    double work): a property only ever imports another property's OWN rule instances."""
+    if getattr(run, "is_sub", False):
+        return
+    sub = Run(run.prop, run.tier, run.tree, quiet=True)
+    sub.is_sub = True
+    module.check(sub)
+    run.evaluations += sub.evaluations
+    run.count(1, rule)
+    match = (lambda r: any(r.startswith(x) for x in src_rules)) if prefix else (lambda r: r in src_rules)
+    for f in sub.findings:
+        if match(f.rule):
+            run.finding(rule, f.key, f.message, f.loc)
+    for e in sub.errors:
+        if any(e.startswith(x) for x in src_rules):
+            raise AnalysisError("model-mismatch", e)
